@@ -25,6 +25,7 @@
 #include <iostream>
 #include <system_error>
 
+#include "oomd/include/Verif.h"
 #include "oomd/util/Util.h"
 
 namespace Oomd {
@@ -64,6 +65,7 @@ Log::~Log() {
   {
     std::lock_guard<std::mutex> lock(state_.lock);
     state_.ioThreadRunning = false;
+    OOMD_VERIF_POINT("log.stop", 0, 0);
   }
   state_.cv.notify_all();
   if (io_thread_.joinable()) {
@@ -128,12 +130,14 @@ void Log::debugLog(std::string&& buf) {
 
   if (buf.size() + state_.curSize > state_.maxSize) {
     state_.numDiscarded++;
+    OOMD_VERIF_POINT("log.drop", (long)buf.size(), (long)state_.curSize);
     return;
   }
 
   auto* q = state_.getCurrentQueue();
   q->emplace_back(std::move(buf));
   state_.curSize += buf.size();
+  OOMD_VERIF_POINT("log.accept", (long)q->back().size(), (long)state_.curSize);
   state_.cv.notify_one();
 }
 
@@ -159,6 +163,7 @@ void Log::ioThread(std::ostream& debug_sink) {
       state_.curSize = 0;
       state_.numDiscarded = 0;
       state_.ioTick++; // flips the last bit that getCurrentQueue uses
+      OOMD_VERIF_POINT("log.swap", (long)q->size(), (long)numDiscarded);
     }
 
     for (auto& buf : *q) {
